@@ -41,6 +41,19 @@ def _cases(draw):
         keep = [lx for lx in res['lexicons'][1:]]
         if any(lx.get('extends') for lx in keep):
             res = {'lmf_version': res['lmf_version'], 'lexicons': keep}
+    if res['lmf_version'] == '1.3' and draw(st.integers(0, 2)) == 0:
+        # constructed: a synset whose only text is an ILI definition that depends on its white
+        # space (no Definition, no Example next to it)
+        for lx in res['lexicons']:
+            ss = next((x for x in lx.get('synsets', []) if not x.get('external')), None)
+            if ss is not None:
+                ss.pop('definitions', None)
+                ss.pop('examples', None)
+                ss['ili'] = ss.get('ili') or 'in'
+                ss['ili_definition'] = {
+                    'text': draw(st.sampled_from([' a  b', 'a\tb ', 'a\n  b', '  ', 'a\rb'])),
+                    'meta': None, 'space': 'preserve'}
+                break
     style = draw(xmlw.styles())
     has_ext = any(lx.get('extends') for lx in res['lexicons'])
     targets = ['1.1', '1.2', '1.3'] if has_ext else list(gen.VERSIONS)
@@ -62,6 +75,10 @@ def _classify(case):
         tags.append('cross-version')
     if _has_preserved(case['resource']):
         tags.append('xml:space-preserve')
+    if any((ss.get('ili_definition') or {}).get('space') == 'preserve'
+           and not ss.get('definitions') and not ss.get('examples')
+           for lx in case['resource']['lexicons'] for ss in lx.get('synsets', [])):
+        tags.append('preserved-ili-definition-alone')
     return bool(_NONTRIVIAL & set(tags)), tags
 
 
@@ -126,5 +143,6 @@ SUBS = [
     Sub('roundtrip', oracle, _classify, strategy=lambda tier: _cases(),
         budget={'quick': 120, 'thorough': 2000}, fingerprint=_fp,
         require_tags=('extension', 'cross-version', 'meta:example', 'text-over-8k',
-                      'extension-before-plain-lexicon', 'xml:space-preserve')),
+                      'extension-before-plain-lexicon', 'xml:space-preserve',
+                      'preserved-ili-definition-alone')),
 ]
